@@ -11,12 +11,17 @@ into the group (the linked field then refuses direct input - in every style); bo
 field lists in which a field is itself a group (a dataclass-typed field of the dataclass / class, dotted leaves
 `--g.f.s0`, an inner parser of the inner parser) x the place where the defaults are given (in the signature; at the
 declaration with `default=` overriding the signature; afterwards with `set_defaults`; by the default instance of
-the enclosing signature).
+the enclosing signature).  The same side space carries the fields whose intended default is None or another falsy
+value (0, '', [], {}) while the signature says something else.  A fifth side space, "type wrappers", declares the
+Optional wrapper over every base type (without default: implicit None; with default None) and a Union.  Whole-group
+inputs include the *empty subset* of the fields: an empty mapping for the group (or a sub-group) in the config string
+/ object, before or after the per-field inputs, `--g={}` and `APP_G={}`.
 
 Differential oracle, no hand-written expectation: for one case the observations of the styles that declare every
 addressed option must be identical - accept/reject, typed value of `as_dict()`, key order, and the text of the
 `dump()` variants.  Once per field list the *declared interface* (option strings and environment variable names
-listed by `format_help()`) is compared as well.
+listed by `format_help()`, and which options it marks as required) is compared as well; an accept/reject divergence
+whose styles split exactly like the required-marks of the declaration is named after the declaration.
 
 The declarations are made equivalent by the library's documented rules (DESIGN.md section 5 C07, interpretation):
 `f: Optional[T]` without default  <=>  `--g.f type=Optional[T] default=None` (not required);
@@ -32,7 +37,7 @@ import itertools
 import json
 import os
 import re
-from typing import Dict, List, Optional  # noqa: F401  (names used by generated sources)
+from typing import Dict, List, Optional, Union  # noqa: F401  (names used by generated sources)
 
 META = {
     "id": "C07",
@@ -45,7 +50,10 @@ META = {
     "options of every parse method (parse_args with config string and environment, parse_object, parse_string, "
     "parse_env, get_defaults) is executed on each style; the observations must coincide. A side space repeats this "
     "for groups that contain a sub-group and for every place the defaults can be given (signature, default= at the "
-    "declaration, set_defaults afterwards, default instance of the enclosing signature). The space is finite and is "
+    "declaration, set_defaults afterwards, default instance of the enclosing signature; including intended defaults "
+    "that are None / falsy), another one for the Optional wrapper over every base type and a Union; whole-group "
+    "inputs include the empty subset of the fields (empty mapping in config / object, --g={}, APP_G={}). "
+    "The space is finite and is "
     "enumerated completely, so within the bounds the verdict is exhaustive; it is a differential verdict (a defect "
     "common to all styles is invisible here and belongs to C02/C05/C06).",
     "level_note": "Trusted: the translation of one field list into four declarations by the two documented "
@@ -93,17 +101,37 @@ VARIANTS = {
     "yesno?": ("yesno", "bool", "True"),  # nargs="?": additionally --g.f=true / --no_g.f=true
 }
 FLAGS = ["yesno", "yesno?"]
+# only in the side space "type wrappers": the Optional wrapper over every base type of the alphabet, without default
+# (documented: implicit default None, not required) and with default None, and a Union; plus - for the side space
+# "source of the defaults" - fields whose intended default is None or another falsy value (0, '', [], {})
+TYPE_SIDE = []
+for _b, _ann in [("int", "int"), ("list", "List[int]"), ("bool", "bool"), ("enum", "E"), ("dict", "Dict[str, int]"), ("float", "float")]:
+    VARIANTS[f"o{_b}!"] = (_b, f"Optional[{_ann}]", None)
+    VARIANTS[f"o{_b}N"] = (_b, f"Optional[{_ann}]", "None")
+    TYPE_SIDE += [f"o{_b}!", f"o{_b}N"]
+VARIANTS["ostrN"] = ("ostr", "Optional[str]", "None")
+VARIANTS["olist"] = ("list", "Optional[List[int]]", "[1, 2]")
+VARIANTS["union!"] = ("union", "Union[int, List[int]]", None)
+VARIANTS["union"] = ("union", "Union[int, List[int]]", "7")
+VARIANTS["ounion!"] = ("union", "Optional[Union[int, List[int]]]", None)
+TYPE_SIDE += ["ostrN", "olist", "union!", "union", "ounion!"]
+FALSY = {"int0": ("int", "int", "0"), "ostrE": ("ostr", "Optional[str]", "''"), "listE": ("list", "List[int]", "[]"), "dictE": ("dict", "Dict[str, int]", "{}")}
+VARIANTS.update(FALSY)
+SIDE_ONLY = set(TYPE_SIDE) | set(FALSY)
 # only in the side space "nested groups / source of the defaults": a field that is itself a group.  The variant names
 # the field list of the sub-group (positional names s0, s1 ... one level down, t0 ... two levels down); in the two
 # signature styles its type is a generated dataclass, in the dotted style its leaves are declared as `--g.f.s0`,
 # in the inner style it is an inner parser of the inner parser.
-SUB_SHAPES = {"sub": ["int", "ostr"], "sub2": ["int", "sub", "ostr"]}
+SUB_SHAPES = {"sub": ["int", "ostr"], "sub2": ["int", "sub", "ostr"], "subN": ["int", "ostrN"]}
 for _v in SUB_SHAPES:
     VARIANTS[_v] = ("sub", None, "<group>")
 SUBS = list(SUB_SHAPES)
-NO_DEFAULT = [v for v, (_, _, d) in VARIANTS.items() if d is None]
-WITH_DEFAULT = [v for v, (_, _, d) in VARIANTS.items() if d is not None and v not in FLAGS and v not in SUBS]
-NULLABLE = {"ostr!", "ostr", "intN"}
+NO_DEFAULT = [v for v, (_, _, d) in VARIANTS.items() if d is None and v not in SIDE_ONLY]
+WITH_DEFAULT = [
+    v for v, (_, _, d) in VARIANTS.items() if d is not None and v not in FLAGS and v not in SUBS and v not in SIDE_ONLY
+]
+# fields that accept null: the annotation is Optional, or the default None widens it
+NULLABLE = {v for v, (_, a, d) in VARIANTS.items() if a is not None and (a.startswith("Optional[") or d == "None")}
 # the *other* default a signature carries when the intended default is given somewhere else (DFLT_MODES below)
 ALT_DEFAULT = {
     "int": "70",
@@ -113,6 +141,14 @@ ALT_DEFAULT = {
     "enum": "E.B",
     "dict": "{'j': 2}",
     "float": "1.25",
+    # intended default None / falsy, the signature carries a value
+    "ostrN": "'e'",
+    "olistN": "[8]",
+    "ointN": "70",
+    "int0": "70",
+    "ostrE": "'e'",
+    "listE": "[8]",
+    "dictE": "{'j': 2}",
 }
 # where the intended defaults of the group are given:
 #   sig   in the signature / in every add_argument (the main space)
@@ -133,6 +169,7 @@ VALUES = {
     "dict": {"argv": '{"m": 2}', "json": {"n": 3}, "env": '{"p": 4}', "bad_argv": '{"m": "x"}', "bad_json": {"m": "x"}},
     "float": {"argv": "1.5", "json": 2.5, "env": "3.5", "bad_argv": "x", "bad_json": "x"},
     "yesno": {"argv": "true", "json": True, "env": "true", "bad_argv": "maybe", "bad_json": "maybe"},
+    "union": {"argv": "3", "json": [5], "env": "[6]", "bad_argv": "x", "bad_json": "x"},
 }
 APPEND_ITEM = 9  # `--g.f+=9`, {"f+": [9]}
 DICT_ITEM = ("q", 8)  # `--g.f.q=8`
@@ -201,6 +238,7 @@ def _gen_namespace():
     return {
         "__name__": __name__,
         "Optional": Optional,
+        "Union": Union,
         "List": List,
         "Dict": Dict,
         "E": E,
@@ -246,7 +284,7 @@ def _gen_dataclass(name, fields, lines, alt, sub_alt, fact, depth=0):
             body.append(f"    {n}: {sub} = dataclasses.field(default_factory={factory})\n")
         elif dflt is None:
             body.append(f"    {n}: {ann}\n")
-        elif base in ("list", "dict"):
+        elif base in ("list", "dict") and _sig_default(vid, dflt, alt) != "None":
             body.append(f"    {n}: {ann} = dataclasses.field(default_factory=lambda: {_sig_default(vid, dflt, alt)})\n")
         else:
             body.append(f"    {n}: {ann} = {_sig_default(vid, dflt, alt)}\n")
@@ -352,8 +390,13 @@ def build_parser(style, fields, key, J, link=False, dflt_mode="sig"):
 # ---------------------------------------------------------------------------------------------------
 # input options
 
-ARGS_GROUP_AFTER = ["gJ", "gJ1", "gE", "gUj", "gUa"]  # whole-group value first, then per-field options U A P K
+# whole-group value first (gJ0 / gE0: the empty subset of the fields, `--g={}` / `APP_G={}`; gM: the config string
+# mentions the group with an empty mapping, `--cfg '{"g": {}}'`), then per-field options U A P K
+ARGS_GROUP_AFTER = ["gJ", "gJ1", "gJ0", "gE", "gE0", "gUj", "gUa", "gM"]
 ARGS_GROUP_CFG = ["gD", "gUc"]  # per-field options U C CP CK, all spelled inside the config string
+# gMz: per-field options U A C E first (C in a config string of its own), then a second config string that mentions
+# the group with an empty mapping
+EMPTY_SUBSET = ["gJ0", "gE0", "gM", "gMz"]  # whole-group inputs that name none of the fields
 
 
 def field_options(vid, method, level, group="g0", role=None):
@@ -373,14 +416,19 @@ def field_options(vid, method, level, group="g0", role=None):
     if base == "sub":
         # inputs of a sub-group field: A / E / X / O address its first leaf, C / XC its last leaf, J gives the
         # whole sub-group as JSON on its own option `--g.f` (declared by every style except the dotted one)
+        # M mentions the sub-group with an empty mapping inside the config string / the object
         if method == "args":
             if group in ARGS_GROUP_AFTER:
                 return ["U", "A"]
             if group in ARGS_GROUP_CFG:
                 return ["U", "C"]
-            return ["U", "A", "C", "J"] + (["E", "X"] if level != "triple" else []) + (["XC"] if level == "single" else [])
+            if group == "gMz":
+                return ["U", "A", "C"]
+            return ["U", "A", "C", "J", "M"] + (["E", "X"] if level != "triple" else []) + (["XC"] if level == "single" else [])
         if method in ("object", "string"):
-            return ["U", "O"] if group != "g0" or level == "triple" else ["U", "O", "X"]
+            if group == "gM":
+                return ["U"]
+            return ["U", "O", "M"] if group != "g0" or level == "triple" else ["U", "O", "X", "M"]
         return ["U", "E"]
     if base == "yesno":
         if method == "args":
@@ -397,6 +445,8 @@ def field_options(vid, method, level, group="g0", role=None):
             return ["U", "A"] + (["P"] if lst else []) + (["K"] if dct else [])
         if group in ARGS_GROUP_CFG:
             return ["U", "C"] + (["CP"] if lst else []) + (["CK"] if dct else [])
+        if group == "gMz":
+            return ["U", "A", "C"] + (["E"] if level == "single" else [])
         o = ["U", "A", "C"]
         if level != "triple":
             o.append("E")
@@ -414,6 +464,8 @@ def field_options(vid, method, level, group="g0", role=None):
             o += ["CA", "EA"] + (["AP", "EP"] if lst else []) + (["AK", "EK"] if dct else [])
         return o
     if method in ("object", "string"):
+        if group == "gM":
+            return ["U", "E"] if level == "single" else ["U"]  # nothing but the empty mapping (and the environment)
         if group != "g0":
             return ["U", "O"]
         if level == "triple":
@@ -437,17 +489,20 @@ def group_options(method, n_fields, level):
         if level == "triple":
             return ["g0", "gJ", "gD"]
         unknown = ["gUa", "gUc", "gUj"] if level != "pair" else []  # unknown sub-keys: not on quick-tier pairs
-        return ["g0", "gJ"] + (["gJ1"] if n_fields > 1 else []) + ["gE", "gD"] + unknown
+        # the empty subset of the fields: in the config string before the per-field inputs (every level); after
+        # them, and as whole-group JSON / environment value: not on quick-tier pairs
+        empty = ["gM"] + (["gMz", "gJ0", "gE0"] if level != "pair" else [])
+        return ["g0", "gJ"] + (["gJ1"] if n_fields > 1 else []) + ["gE", "gD"] + empty + unknown
     if method in ("object", "string"):
-        return ["g0"] if level == "triple" else ["g0", "gD"] + (["gU"] if level != "pair" else [])
+        return ["g0"] if level == "triple" else ["g0", "gD", "gM"] + (["gU"] if level != "pair" else [])
     if method == "env":
-        return ["g0"] if level == "triple" else ["g0", "gE"]
+        return ["g0"] if level == "triple" else ["g0", "gE"] + (["gE0"] if level != "pair" else [])
     return ["g0"]
 
 
 def applicable_styles(case):
     styles = FLAG_STYLES if any(v in FLAGS for v in case["fields"]) else STYLES
-    if case.get("group") in ("gJ", "gJ1", "gE", "gUj") or "J" in case["opts"]:
+    if case.get("group") in ("gJ", "gJ1", "gJ0", "gE", "gE0", "gUj") or "J" in case["opts"]:
         styles = [s for s in styles if s in WITH_GROUP_OPTION]
     return styles
 
@@ -478,6 +533,8 @@ def render(case):
                 cfgd[n] = _nest(p2, VALUES[b2]["json"])
             elif opt == "XC":
                 cfgd[n] = _nest(p2, VALUES[b2]["bad_json"])
+            elif opt == "M":
+                (cfgd if method == "args" else obj)[n] = {}
             elif opt == "O":
                 obj[n] = _nest(p1, VALUES[b1]["json"])
             elif opt == "X":
@@ -535,29 +592,37 @@ def render(case):
         head = []
         if group == "gUc":
             cfgd["zz"] = 1
-        if cfgd:
+        if cfgd or group == "gM":
             doc = {f"{key}.{n}": x for n, x in cfgd.items()} if group == "gD" else _nest(key, cfgd)
             head += ["--cfg", json.dumps(doc)]
+        if group == "gMz":
+            argv += ["--cfg", json.dumps(_nest(key, {}))]
         if group == "gJ":
             head.append(f"--{key}=" + json.dumps(all_json))
         elif group == "gJ1":
             head.append(f"--{key}=" + json.dumps({fields[0][0]: all_json[fields[0][0]]}))
         elif group == "gUj":
             head.append(f"--{key}=" + json.dumps({**all_json, "zz": 1}))
+        elif group == "gJ0":
+            head.append(f"--{key}={{}}")
         elif group == "gE":
             env[envkey] = json.dumps(all_json)
+        elif group == "gE0":
+            env[envkey] = "{}"
         if group == "gUa":
             argv.append(f"--{key}.zz=1")
         out["argv"] = head + argv
     elif method in ("object", "string"):
         if group == "gU":
             obj["zz"] = 1
-        doc = {f"{key}.{n}": x for n, x in obj.items()} if group == "gD" else (_nest(key, obj) if obj else {})
+        doc = {f"{key}.{n}": x for n, x in obj.items()} if group == "gD" else (_nest(key, obj) if obj or group == "gM" else {})
         out["obj"] = doc
         out["text"] = json.dumps(doc)
     elif method == "env":
         if group == "gE":
             env[envkey] = json.dumps(all_json)
+        elif group == "gE0":
+            env[envkey] = "{}"
     return out
 
 
@@ -578,7 +643,7 @@ DUMPS = [
     ("dump-skip-default", {"skip_default": True}),
     ("dump-json", {"format": "json"}),
 ]
-ASPECTS = ["accept", "value", "order"] + [d[0] for d in DUMPS] + ["options", "envvars", "group_option"]
+ASPECTS = ["accept", "value", "order"] + [d[0] for d in DUMPS] + ["options", "envvars", "group_option", "required"]
 
 
 def observe_style(style, case):
@@ -611,6 +676,13 @@ def observe_style(style, case):
             obs["has_group_option"] = bool(re.search(r"(?<![\w-])--" + k + r"(?![\w.])", text))
             present = [obs["has_group_option"]] + [o in options for o in sorted(sub_opts)] + [e in envvars for e in sorted(sub_envs)]
             obs["group_option"] = "as-expected" if all(x == (style != "dotted") for x in present) else "unexpected"
+            # the options the help marks as required (one entry per option: "ARG: --g.f0 F0 ... (required, type: ...)")
+            required = set()
+            for entry in re.split(r"\n(?=\s*ARG: )|\n\s*\n", text):
+                m = re.match(r"\s*ARG:\s+(--(?:no_)?" + k + r"\.[^\s,=\]\[]+)", entry)
+                if m and "(required" in entry:
+                    required.add(m.group(1))
+            obs["required"] = sorted(required)
             return obs
         dump_kw = {}
         if method == "args":
@@ -652,13 +724,14 @@ def observe_case(case):
     return {style: observe_style(style, case) for style in applicable_styles(case)}
 
 
-def raw_judgement(case, obs=None):
-    """None, or (aspect, partition, detail): the first aspect on which the applicable styles do not agree."""
+def raw_judgement(case, obs=None, only=None):
+    """None, or (aspect, partition, detail): the first aspect (or the aspect `only`) on which the applicable styles
+    do not agree."""
     from mc.core import canon_json
 
     obs = obs if obs is not None else observe_case(case)
     styles = list(obs)
-    for aspect in ASPECTS:
+    for aspect in ASPECTS if only is None else [only]:
         groups = {}
         for s in styles:
             groups.setdefault(canon_json(obs[s].get(aspect)), []).append(s)
@@ -745,9 +818,20 @@ def judge(case, obs=None):
     if first is None:
         return []
     aspect, partition, detail = first
-    witness = case
+    witness, only = case, None
+    if aspect == "accept" and case["method"] != "interface":
+        # root cause at the declaration: the styles do not agree on which options are required, and the styles of
+        # this case split the same way - the divergence is named after the declaration, whatever input met it
+        icase = {**case, "method": "interface", "opts": ["U"] * len(case["fields"]), "group": "g0"}
+        j = raw_judgement(icase, only="required")
+        if j is not None:
+            cells = [sorted(set(cell.split(",")) & set(obs or applicable_styles(case))) for cell in j[1].split("|")]
+            if "|".join(sorted(",".join(c) for c in cells if c)) == partition:
+                case, aspect, partition = icase, "required", j[1]
+                detail += f" [declaration: {j[2]}]"
+                witness, only = case, "required"
     for sub in subcases(case):
-        j = raw_judgement(sub)
+        j = raw_judgement(sub, only=only)
         if j is not None and j[0] == aspect and j[1] == partition:
             witness = sub
             break
@@ -796,6 +880,21 @@ def flag_lists():
 
 
 DFLT_ALPHABET = [v for v in WITH_DEFAULT if v in ALT_DEFAULT]  # intN has no second default to override
+# fields whose *intended* default is None or another falsy value while the signature carries a real value
+DFLT_FALSY = ["ostrN", "ointN", "olistN"] + list(FALSY)
+
+
+def type_lists(quick):
+    """Side space "type wrappers": every single field of TYPE_SIDE; thorough: pairs with a plain partner (int!, int,
+    list) on either side, as far as declarable (parameters without default first)."""
+    out = [[v] for v in TYPE_SIDE]
+    for v in TYPE_SIDE if not quick else []:
+        for partner in ["int!", "int", "list"]:
+            for fl in ([v, partner], [partner, v]):
+                defaults = [VARIANTS[x][2] is not None for x in fl]
+                if defaults == sorted(defaults):
+                    out.append(fl)
+    return out
 
 
 def dflt_lists(quick):
@@ -820,6 +919,18 @@ def dflt_lists(quick):
     for fl in [["sub2"]] + ([[v, "sub2"] for v in small] + [["sub2", v] for v in small] if not quick else []):
         for mode in DFLT_MODES:
             out.append((fl, mode, "pair" if len(fl) == 1 else "triple"))
+    # intended default None / falsy (0, '', [], {}) where the signature carries a real value: every such field alone
+    # (the signature mode of the Optional ones is in the side space "type wrappers"), in pairs with an int on either
+    # side (quick: the first of them, Optional[str] = None; thorough: all, partners int ostr list), and as the leaf
+    # of a sub-group
+    for v in DFLT_FALSY:
+        for mode in ["decl", "post"] + (["sig"] if v in FALSY else []):
+            out.append(([v], mode, "pair"))
+        for partner in ["int"] if quick else small:
+            for fl in ([partner, v], [v, partner]):
+                if not quick or v == DFLT_FALSY[0]:
+                    out += [(fl, mode, "triple") for mode in ("decl", "post")]
+    out += [(["subN"], mode, "pair") for mode in DFLT_MODES]
     if not quick:
         # triples with one sub-group over the small alphabet
         for fl in itertools.product(small + ["sub"], repeat=3):
@@ -845,6 +956,12 @@ def plan(quick):
     for fl in field_lists(1 if quick else 2):
         for m in METHODS:
             blocks.append({"fields": fl, "method": m, "level": "pair", "key": "t.g"})
+    # side space: type wrappers (Optional over every base type without default / with default None, Union)
+    for fl in type_lists(quick):
+        level = "single" if len(fl) == 1 else "pair" if quick else "pair+"
+        for m in METHODS:
+            if not (m == "string" and level == "pair"):
+                blocks.append({"fields": fl, "method": m, "level": level, "key": "g"})
     # side space: a top-level option linked to the last field of the group
     for fl in field_lists(2):
         for m in ("interface", "args"):
@@ -928,6 +1045,13 @@ def work(block):
                     count("link-source-accepted")
                 if o == "J":
                     count("sub-group-json-accepted")
+            if case["group"] in EMPTY_SUBSET and "key" not in case:
+                # premise of the empty-subset inputs: naming the group without any field is accepted and leaves
+                # the values of the group alone (the group is not replaced by an empty value)
+                got = [x for k, x in (first.get("value") or [None, []])[1] if k == "g"]
+                count("empty-subset:accepted")
+                if got and isinstance(got[0], list) and len(got[0]) == 2 and got[0][1]:
+                    count("empty-subset:values-kept")
             if case["method"] == "defaults" and case.get("dflt", "sig") != "sig":
                 # premise of the side space: the defaults given outside the signature are the ones in force
                 from mc.util import tcanon
@@ -946,6 +1070,8 @@ def work(block):
                     count("interface-lists-every-field")
                 if o.get("accept") == "ok" and any(x.endswith("+") for x in o.get("options", [])):
                     count("interface-lists-append-option")
+                if o.get("accept") == "ok" and o.get("required"):
+                    count("interface-marks-required-option")
                 if o.get("accept") == "ok":
                     count(f"interface-group-option:{'dotted' if s == 'dotted' else 'others'}:{o['has_group_option']}")
         res["obs"].add(hashlib.sha1(canon_json(first).encode()).hexdigest()[:12])
@@ -1017,7 +1143,10 @@ def explore(ctx):
             "field_variants": list(VARIANTS),
             "max_fields": 2 if ctx.quick else 3,
             "declared_groups (field list x key x link x source of the defaults)": n_lists,
-            "sub_group_shapes": {k: v for k, v in SUB_SHAPES.items() if k == "sub" or not ctx.quick},
+            "sub_group_shapes": SUB_SHAPES,
+            "type_wrapper_variants": {v: VARIANTS[v][1] + ("" if VARIANTS[v][2] is None else " = " + VARIANTS[v][2]) for v in TYPE_SIDE},
+            "none_or_falsy_intended_defaults": {v: f"{VARIANTS[v][2]} (signature: {ALT_DEFAULT[v]})" for v in DFLT_FALSY},
+            "empty_subset_group_options": EMPTY_SUBSET + ["M (sub-group)"],
             "defaults_modes": DFLT_MODES,
             "styles": STYLES,
             "methods": METHODS,
@@ -1044,6 +1173,13 @@ def explore(ctx):
     ctx.require(c.get("sub-group-json-accepted", 0) > 20, "whole-sub-group JSON on --g.f is accepted in > 20 cases")
     for mode in DFLT_MODES:
         ctx.require(c.get("side:dflt=" + mode, 0) > 30, f"> 30 cases with the defaults given by mode '{mode}'")
+    empty_deviates = any(sig.split(":")[3] in EMPTY_SUBSET for sig in ctx.deviations if sig.count(":") > 3)
+    ctx.require(
+        c.get("empty-subset:accepted", 0) > 200
+        and (empty_deviates or c.get("empty-subset:values-kept", 0) == c.get("empty-subset:accepted", -1)),
+        "> 200 accepted cases that name the group with the empty subset of its fields, all of which keep the values of "
+        "the group (first style; a style that does not is reported as a deviation)",
+    )
     defaults_deviate = any(":defaults:" in sig and ":dflt=" in sig for sig in ctx.deviations)
     ctx.require(
         c.get("defaults-source:cases", 0) > 40
@@ -1059,6 +1195,7 @@ def explore(ctx):
         "every style's help lists an option for every declared field (the declarations really expose the options)",
     )
     ctx.require(c.get("interface-lists-append-option", 0) > 20, "list fields expose a '+' option")
+    ctx.require(c.get("interface-marks-required-option", 0) > 100, "the help marks required options in > 100 style runs")
     ctx.require(
         c.get("interface-group-option:dotted:True", 0) == 0 and c.get("interface-group-option:others:True", 0) > 100,
         "the dotted style never declares --g; the other styles do (premise of the 3-style rule; a style that lacks "
@@ -1066,7 +1203,7 @@ def explore(ctx):
     )
     for m in METHODS:
         ctx.require(c.get(f"method:{m}", 0) > 0, f"method {m} exercised")
-    for o in ("A", "C", "E", "X", "XC", "N", "P", "CP", "K", "CK", "CA", "EA", "AP", "EK", "O", "F", "NF", "NA", "S", "J"):
+    for o in ("A", "C", "E", "X", "XC", "N", "P", "CP", "K", "CK", "CA", "EA", "AP", "EK", "O", "F", "NF", "NA", "S", "J", "M"):
         ctx.require(c.get(f"opt:{o}", 0) > 0, f"input option {o} exercised")
-    for g in ("gJ", "gJ1", "gE", "gD", "gUa", "gUc", "gUj", "gU"):
+    for g in ("gJ", "gJ1", "gE", "gD", "gUa", "gUc", "gUj", "gU", "gM", "gMz", "gJ0", "gE0"):
         ctx.require(c.get(f"group:{g}", 0) > 0, f"group option {g} exercised")
